@@ -9,7 +9,7 @@ rm -rf $S && cp -a /repo $S && cd $S || exit 2
 git apply /tmp/seeded/$id/patch.diff || { echo "PATCH DOES NOT APPLY"; exit 2; }
 touched=$(git diff --name-only | xargs -n1 dirname | sort -u | sed 's#^#./#' | tr '\n' ' ')
 go build ./cl/... ./parser/... ./scanner/... ./printer/... ./format/... ./ast/... ./token/... ./tpl/... ./x/... ./cmd/... ./tool/... 2>&1 | tail -3 && echo "build: ok"
-echo "pinned tests of touched packages ($touched) with the patch:"; go test -vet=off -count=1 $touched 2>&1 | grep -v "no test files" | tail -3
+echo "pinned tests of touched packages ($touched) with the patch:"; go test -vet=off -count=1 -skip 'TestErrImportPkg$' $touched 2>&1 | grep -v "no test files" | grep -E -- "^(--- FAIL|FAIL|ok)" | tail -6  # TestErrImportPkg fails in every copy of the repository (GOPROXY=off changes the go command's message)
 cp /tmp/seeded/$id/demo/$demo $dest
 echo "--- demo WITH patch (expect FAIL):"; go test -vet=off -count=1 -run "$run" $pkg 2>&1 | grep -v '^20[0-9][0-9]/' | tail -4
 git stash -q -- $(git diff --name-only) 2>/dev/null || git checkout -- $(git diff --name-only)
